@@ -63,6 +63,18 @@ def run(repo: Repo, tier: str, res: CheckResult, seed: int = 0) -> None:
                         "a predicate checker is built over a one-shot iterable (map/filter/generator) and stored in the "
                         "provider: every routing check consumes items, so which requests matched before decides what matches "
                         "now, and clones made by replace()/extend() share the half-consumed iterator", f.line))
+    call_cache_stores_results_only(repo, res)
+    # recursion stubs are arguments of cached factories; compared by value, a closure cached by a request that FAILED midway
+    # (its stub never bound) is served to the retried request (shared rule with C12: two-phase objects compare by identity)
+    from . import c12 as _c12
+    sub2 = CheckResult("C12")
+    _c12.two_phase(repo, sub2)
+    res.evaluated("state:two-phase-identity", True)
+    for f in sub2.findings:
+        res.add(Finding("C11", "STATE.stub-compared-by-value", f.file, f.qualname, f.construct,
+                        "a recursion stub that compares by value lets the call cache hand a closure built for an earlier request -- "
+                        "possibly one that failed before its stub was bound -- to a later request: the loader obtained after a failed "
+                        "first attempt raises on recursive data although a fresh retort works (" + f.message[:160] + ")", f.line))
     # hidden memos anywhere in the package (functools caches and check-then-insert dictionaries): sa/memo.py
     from .. import memo
     memo.check(repo, res, "C11")
@@ -168,6 +180,37 @@ def ted_cache_keys(repo: Repo, res: CheckResult) -> None:
                                         "Literal[0, 1] and Literal[False, True] produce equal keys, so the loader built for "
                                         "the first request on a retort is returned for the second", node.lineno))
     res.count("KEY.literal-key-arguments", n, 5)
+    # the same values reach other providers through the cases of a union: `case.args` of a case tested with `origin is Literal`
+    k2 = 0
+    for mod in repo.modules.values():
+        if "/morphing/" not in mod.rel:
+            continue
+        for fn in [f for f in ast.walk(mod.tree) if isinstance(f, ast.FunctionDef)]:
+            assigned = {}
+            for a in ast.walk(fn):
+                if isinstance(a, ast.Assign) and len(a.targets) == 1 and isinstance(a.targets[0], ast.Name):
+                    assigned.setdefault(a.targets[0].id, []).append(a.value)
+            for node in ast.walk(fn):
+                if not (isinstance(node, ast.Call) and isinstance(node.func, ast.Attribute) and node.func.attr == "cached_call"):
+                    continue
+                for a in list(node.args[1:]) + [k.value for k in node.keywords]:
+                    exprs = [a] + (assigned.get(a.id, []) if isinstance(a, ast.Name) else [])
+                    for e in exprs:
+                        lit_vars = {norm(c.left.value) for c in ast.walk(e) if isinstance(c, ast.Compare) and len(c.ops) == 1
+                                    and isinstance(c.ops[0], (ast.Is, ast.Eq)) and isinstance(c.left, ast.Attribute) and c.left.attr == "origin"
+                                    and norm(c.comparators[0]).split(".")[-1] == "Literal"}
+                        raw = [x for x in ast.walk(e) if isinstance(x, ast.Attribute) and x.attr == "args" and norm(x.value) in lit_vars]
+                        if not raw:
+                            continue
+                        k2 += 1
+                        res.evaluated(f"tedkey:case-args:{mod.rel}:{mod.qualname(fn)}:{norm(a)[:30]}", True)
+                        typed = any(tok in norm(e) for tok in ("type(", "_type_and_value_iter", "TypedLiteral"))
+                        if not typed:
+                            res.add(Finding("C11", "KEY.untyped-literal-values", mod.rel, mod.qualname(fn), norm(a)[:60],
+                                            f"cache key argument `{norm(a)[:40]}` = `{norm(e)[:80]}` carries the arguments of a Literal case as a "
+                                            "plain tuple compared by == / hash: Union[Literal[0, 1], X] and Union[Literal[False, True], X] share "
+                                            "the entry, the union requested second gets the first one's closure (KeyError / wrong "
+                                            "representation when a literal value is dumped)", node.lineno))
 
 
 def hash_wrappers(repo: Repo, res: CheckResult) -> None:
@@ -450,3 +493,40 @@ def facade_caches(repo: Repo, res: CheckResult) -> None:
                     res.add(Finding("C11", "FACADE.foreign-cache", m.rel, qual, f"{norm(st.value)} <- {norm(mk.func)}",
                                     "the value is produced by one retort and cached in another", st.lineno))
     res.count("FACADE.caches", n, 3)
+
+
+def call_cache_stores_results_only(repo: Repo, res: CheckResult) -> None:
+    """The call cache memoises RESULTS of factories. An outcome that later code modifies must not be stored: a CannotProvide is
+    annotated in place by the request bus (location notes) and aggregated into reports, so a remembered refusal accumulates the
+    notes of every earlier failed request (the report for B names A's fields) and makes refusals sticky although the world
+    changed (a mapping registered after the first failure). Every store into the cache must store the value bound to the
+    factory call."""
+    mm = repo.mod("retort/builtin_mediator")
+    ci = mm.classes.get("BuiltinMediator")
+    fn = ci.methods.get("cached_call") if ci is not None else None
+    if fn is None:
+        raise AnalysisError("anchor vanished: BuiltinMediator.cached_call")
+    fparam = func_params(fn)[1]
+    res.evaluated("call-cache:results-only", True)
+    result_names = {t.id for st in ast.walk(fn) if isinstance(st, ast.Assign) and isinstance(st.value, ast.Call)
+                    and isinstance(st.value.func, ast.Name) and st.value.func.id == fparam for t in st.targets if isinstance(t, ast.Name)}
+    for st in ast.walk(fn):
+        if isinstance(st, ast.Assign) and any(isinstance(t, ast.Subscript) and norm(t.value) == "self._call_cache" for t in st.targets):
+            v = st.value
+            ok = (isinstance(v, ast.Name) and v.id in result_names) or (
+                isinstance(v, ast.Call) and isinstance(v.func, ast.Name) and v.func.id == fparam)
+            in_handler = any(isinstance(p, ast.ExceptHandler) for p in _parents_of(mm, st, fn))
+            if not ok or in_handler:
+                res.add(Finding("C11", "CACHE.non-result-memoised", mm.rel, "BuiltinMediator.cached_call", norm(st)[:100],
+                                f"`{norm(st)[:80]}` stores something else than the factory's result"
+                                + (" (inside an exception handler: a failure is remembered)" if in_handler else "") +
+                                ": a remembered CannotProvide is annotated in place by every request that hits it, so the error report of "
+                                "a request depends on the requests that failed before it, and the refusal outlives its cause",
+                                st.lineno))
+
+
+def _parents_of(m: ModuleInfo, node: ast.AST, stop: ast.AST):
+    p = m.parent(node)
+    while p is not None and p is not stop:
+        yield p
+        p = m.parent(p)
